@@ -1,2 +1,32 @@
 """Predicates of open known findings. Each takes a core.Divergence and says whether that divergence
 is the recorded finding (same failing history/input AND same kind of divergence)."""
+
+
+def _cfg(div):
+    b = div.behaviour
+    return b.get('cfg') or {}
+
+
+def KF_C04_world_empty_view(div):
+    """World-coordinate attributes (and selections on them) requested under a view that selects nothing
+    (an empty slice somewhere), on datasets with >= 2 dimensions: IndexError instead of an empty array."""
+    b = div.behaviour
+    if b.get('spec') != 'Views':
+        return False
+    comp = div.component
+    if not (comp.startswith('values[world') or comp == 'mask[ineq_gt_world]'):
+        return False
+    return (len(b['cfg']['shape']) >= 2 and b['exp']['src'] == [] and isinstance(div.actual, str)
+            and div.actual.startswith('raised IndexError'))
+
+
+def KF_C04_scalar_view_selections(div):
+    """All-integer views (scalar result) of selections built on categorical attributes or projected 3-d regions:
+    CategoricalROISubsetState / CategoricalROISubsetState2D / CategoricalMultiRangeSubsetState / RoiSubsetState3d raise,
+    CategorySubsetState returns False for a selected element."""
+    b = div.behaviour
+    if b.get('spec') != 'Views':
+        return False
+    if b['exp']['rshape'] != [] or b['cfg']['kind'] != 'tuple':
+        return False
+    return div.component in ('mask[catroi]', 'mask[roi3d]', 'mask[catmultirange]', 'mask[catroi2d]', 'mask[category]')
